@@ -220,6 +220,7 @@ def C03(tier):
         best = max(c.maxes.get("ratio_permille." + nm, 0) for nm in names)
         c.require("approached." + fn, best, 900, "(max written/advertised, permille)")
     c.require("ratio_permille.float", c.maxes.get("ratio_permille.float", 0), 300, "(varintFloatMaxEncodedSize is loose by construction: 9 bytes per exponent and 8 per value are both reserved)")
+    c.require("dictionary_refusals", c.stat("c03_dictionary_refusals"), 1000, "(EncodeWithDict with a value missing from the dictionary)")
     c.assumptions = ["advertised size per codec as listed in DESIGN.md C03 (max-size bounds and size predictors)"]
     c.finish(c.stat("cases"), c.extra["per_cfg"].get("distinct_nontrivial@rel", 0),
              "destination is exactly the advertised number of bytes (heap block under ASan, 4 KiB verified guard elsewhere); "
